@@ -255,15 +255,18 @@ def validate_t1(groups_path, tcase, obs_paths, shards=8, timeout=3600, module="T
                        workers=1, timeout=timeout, heap="4g")
     results = parallel(one, files, workers=min(10, len(files)))
     div, n, states, trans = [], 0, 0, 0
+    kfhits = []
     for r, cnt in zip(results, counts):
         done = None
         for ln in r["out"].splitlines():
-            m = re.search(r'"(DIVERGE|DONE) (.*)"$', ln)
+            m = re.search(r'"(DIVERGE|DONE|KFHIT) (.*)"$', ln)
             if not m:
                 continue
             js = json.loads(m.group(2).replace('\\"', '"'))
             if m.group(1) == "DIVERGE":
                 div.append(js)
+            elif m.group(1) == "KFHIT":
+                kfhits.append(js)
             else:
                 done = js
         if done is None or done["n"] != cnt:
@@ -272,4 +275,4 @@ def validate_t1(groups_path, tcase, obs_paths, shards=8, timeout=3600, module="T
         states += r.get("distinct", 0)
         trans += r.get("generated", 0)
     shutil.rmtree(sd, ignore_errors=True)
-    return div, dict(n=n, states=states, transitions=trans)
+    return div, dict(n=n, states=states, transitions=trans, kfhits=kfhits)
